@@ -19,7 +19,7 @@ Inductive case :=
 | CCache (limit n i : Z) (h : list (kop * kobs))
 (* another client (the cache cleaner): requests and callbacks per driver step, and the
    ids of the tasks the cleaner invoked during the step *)
-| CTrace (n i : Z) (segs : list (list op * fired * list Z))
+| CTrace (n i : Z) (segs : list (list op * fired * list Z)) (adds : list bool)
 (* the wheel with execute callbacks held open by the controller across later operations:
    per operation, the callbacks that STARTED during it and the result *)
 | CGated (n i : Z) (hold : list Z) (ops : list gop) (obs : list (fired * res))
@@ -126,7 +126,7 @@ Fixpoint agrees (c : case) : bool :=
     && (negb acc || (res_eqb r1 ROk && res_eqb r2 RErrClosed))
   | CCache limit n i h =>
     cache_agrees (CW.cw_new limit n i false) (init n i) (cinit n i) h
-  | CTrace n i segs =>
+  | CTrace n i segs adds =>
     let t := concat (map (fun s => fst (fst s)) segs) in
     list_eqb pairs_eqb (canon (run (init n i) t)) (canon (crun (cinit n i) t))
     && trace_ok i [] (map fst segs)
@@ -152,11 +152,13 @@ Fixpoint prop_ok (c : case) : bool :=
     && (negb acc || (res_eqb r1 ROk && res_eqb r2 RErrClosed))
   | CCache limit n i h =>
     if history_in_scope i h then (1 <=? n) && (1 <=? i) && client_ok i [] [] h else true
-  | CTrace n i segs =>
+  | CTrace n i segs adds =>
     if segs_in_scope i segs
     then trace_ok i [] (map fst segs)
          (* every callback of the wheel is one invocation of that task, and vice versa *)
          && forallb (fun s => zs_eqb (sort_z (map fst (snd (fst s)))) (sort_z (snd s))) segs
+         (* the client registers every task under a key that is not pending *)
+         && fresh_ok i [] (map fst segs) adds
     else true
   | CFree n i ops ticks =>
     if free_in_scope i ops then (1 <=? n) && (1 <=? i) && free_ok i ops ticks else true
@@ -179,7 +181,7 @@ Fixpoint model_obs (c : case) : list fired :=
   | CWheel n i ops _ => canon (map fst (arun (ainit n i) ops))
   | CNew _ _ _ _ _ _ => []
   | CCache limit n i h => canon (run (init n i) (concat (map (fun ob => otrace (snd ob)) h)))
-  | CTrace n i segs => canon (run (init n i) (concat (map (fun s => fst (fst s)) segs)))
+  | CTrace n i segs adds => canon (run (init n i) (concat (map (fun s => fst (fst s)) segs)))
   | CFree n i ops ticks => canon (run (init n i) (map snd ops))
   | CGated n i hold ops _ => canon (map fst (grun astep hold (mkD (ainit n i) [] []) ops))
   | CBoth a b => model_obs a ++ model_obs b
